@@ -110,10 +110,12 @@ def rule_clock(ctx) -> None:
                 continue
             for cmp_ in [y for y in ast.walk(n.ast) if isinstance(y, ast.Compare)]:
                 txt = src(cmp_)
-                if "_ttl" not in txt and "ttl" not in {z.id for z in ast.walk(cmp_) if isinstance(z, ast.Name)}:
+                sl = rd.slice([cmp_], n)
+                if not any(a.endswith("_ttl") for a in sl.attrs()):
+                    continue
+                if not any(isinstance(op, (ast.Gt, ast.GtE, ast.Lt, ast.LtE)) for op in cmp_.ops):
                     continue
                 n_ttl += 1
-                sl = rd.slice([cmp_], n)
                 via_injected = any(isinstance(c.func, ast.Attribute) and c.func.attr == "_time" for c in sl.calls())
                 ctx.check(via_injected, "C15.CLOCK", f"{fn.qual}/ttl-compare", fn.loc(cmp_),
                           f"TTL test `{txt}` reads the time through the injected self._time",
